@@ -488,7 +488,7 @@ def read_value(ns, tx, x):
                 raise TypeError("ndarray attribute of another dtype")
             return {"sh": [int(d) for d in x.shape], "it": [list(x[idx].tobytes()) for idx in np.ndindex(*x.shape)]}
         sh = [int(d) for d in x._shape]
-        if any(d < 0 for d in sh) or int(np.prod(sh, dtype=object)) > 4096:
+        if any(d < 0 for d in sh) or int(np.prod(sh, dtype=object)) > getattr(ns, "max_items", 4096):
             raise OverflowError(f"implausible shape {sh[:4]}")      # read from corrupted bytes: reported as a raising accessor
         return {"sh": sh, "it": [read_value(ns, tx["it"], x[idx]) for idx in np.ndindex(*sh)]}
     if x is None:
